@@ -16,6 +16,9 @@
 //!            1..4-variable interactions registered as full matrices (with/without offset) or diagonal tables whose
 //!            diagonals differ only in late rows / only in early rows / nowhere: the observables must be exactly the
 //!            registered interactions with a non-constant diagonal (judged here from all 2^n entries)
+//!   isingbond: `calculate_bond_autocorrelation` (and the tempering bond helper) on real `QmcIsingGraph` samplers on
+//!            3..5-site rings / stars / chains / random graphs (both edge orientations, mixed-sign J, an edge on the
+//!            two last variables, duplicate edges); observable of edge (a,b,J) = +1 iff satisfied, from s[a], s[b], sign J
 //!   edge   : excluded inputs run once (no sample, constant column, zero observables)
 //! Oracle: the documented formula (mean removed, unit norm, circular, averaged over observables) evaluated
 //! directly in f64 with an O(T^2) double loop on the samples of the documented cadence.
@@ -900,6 +903,138 @@ fn mode_genbond(a: &Args) {
     }
 }
 
+// ------------------------------------------------------------------------------------------------
+// bond autocorrelation of the real Ising sampler
+// ------------------------------------------------------------------------------------------------
+
+type IsingQ = DefaultQmcIsingGraph<SplitMix64>;
+
+/// Documented bond observable (read off the unchanged `QmcIsingGraph::value_for_bond`): edge (a, b, J) on state s
+/// is +1 when the bond is satisfied — spins equal for J < 0 (ferromagnetic), spins different for J > 0
+/// (antiferromagnetic; H = sum J s_a s_b) — and -1 otherwise. Computed from s[a], s[b], sign(J) only.
+fn bond_satisfied(a: usize, b: usize, j: f64, s: &[bool]) -> f64 {
+    let aligned = s[a] == s[b];
+    if (j < 0.0 && aligned) || (j > 0.0 && !aligned) {
+        1.0
+    } else {
+        -1.0
+    }
+}
+
+/// graphs on 3..5 sites: ring / star / chain / random, both edge orientations, mixed signs, always an edge on the
+/// two last variables, sometimes a duplicate edge; J != 0 (dyadic)
+fn gen_bond_graph(g: &mut SplitMix64, nvars: usize) -> Vec<((usize, usize), f64)> {
+    let mut pairs: Vec<(usize, usize)> = match g.below(4) {
+        0 => (0..nvars).map(|v| (v, (v + 1) % nvars)).collect(),
+        1 => {
+            let c = g.below(nvars as u64) as usize;
+            (0..nvars).filter(|v| *v != c).map(|v| (c, v)).collect()
+        }
+        2 => (0..nvars - 1).map(|v| (v, v + 1)).collect(),
+        _ => {
+            let mut ps = vec![];
+            for a in 0..nvars {
+                for b in a + 1..nvars {
+                    if g.coin() {
+                        ps.push((a, b));
+                    }
+                }
+            }
+            ps
+        }
+    };
+    if !pairs.iter().any(|(a, b)| (*a.min(b), *a.max(b)) == (nvars - 2, nvars - 1)) {
+        pairs.push((nvars - 2, nvars - 1));
+    }
+    // every variable must appear (nvars is derived from the largest index; isolated ones are fine but keep it tight)
+    if g.chance(1, 3) {
+        let d = *g.pick(&pairs);
+        pairs.push(d);
+        stat("isingbond_duplicate_edge", 1);
+    }
+    pairs
+        .into_iter()
+        .map(|(a, b)| {
+            let (a, b) = if g.coin() { (b, a) } else { (a, b) };
+            let j = *g.pick(&[-1.0, -0.5, 0.5, 1.0, 0.25, -0.75]);
+            ((a, b), j)
+        })
+        .collect()
+}
+
+fn emit_isingbond(tag: &str, n_bonds: usize, edges: &[((usize, usize), f64)], r: &[f64], states: &[Vec<bool>]) {
+    let table: Vec<Vec<f64>> = states.iter().map(|s| edges.iter().map(|((a, b), j)| bond_satisfied(*a, *b, *j, s)).collect()).collect();
+    let input = format!(
+        "isingbond {} 1 {} {}",
+        states.len(),
+        show_table(&table),
+        edges.iter().map(|((a, b), j)| format!("{}-{}:{}", a, b, rat(*j))).collect::<Vec<_>>().join(",")
+    );
+    let mut oracle = judge(r, &table);
+    if n_bonds != edges.len() {
+        oracle = Some(Err(format!("{}: n_bonds() = {} for {} edges", tag, n_bonds, edges.len())));
+    }
+    if let Some(Err(e)) = &oracle {
+        oracle = Some(Err(format!("{} (edges {:?}): {}", tag, edges, e)));
+    }
+    let nt = matches!(oracle, Some(Ok(())));
+    emit(nt, &input, &format!("{} {}", n_bonds, show_out(r)), oracle.or(Some(Ok(()))));
+}
+
+fn mode_isingbond(a: &Args) {
+    let mut g = SplitMix64::new(a.seed ^ 0x2015);
+    let cases = if a.thorough { 240 } else { 48 };
+    let mut off01 = 0usize;
+    for ci in 0..cases {
+        let nvars = g.range(3, 5) as usize;
+        let edges = gen_bond_graph(&mut g, nvars);
+        if edges.iter().any(|((a, b), _)| a.max(b) > &1) {
+            off01 += 1;
+        }
+        let tr = g.range(4, 10) as f64 / 4.0;
+        let f = g.range(1, 3) as usize;
+        let l = *g.pick(&LENS_QUICK[6..18]);
+        let t = l * f + g.below(f as u64) as usize;
+        if ci % 4 != 3 {
+            let beta = *g.pick(&[0.25, 0.5, 1.0]);
+            let mut q = IsingQ::new_with_rng(edges.clone(), tr, 0.0, 4, SplitMix64::new(g.next()), None);
+            q.timesteps(10, beta);
+            let mut q2 = q.clone();
+            let nb = q.n_bonds();
+            match catch(|| q.calculate_bond_autocorrelation(t, beta, Some(f))) {
+                Err(p) => emit(false, &format!("isingbond {} 1 - -", l), "panic", Some(Err(format!("Ising bond helper panicked: {}", p)))),
+                Ok(r) => {
+                    let (states, _) = q2.timesteps_sample(t, beta, Some(f));
+                    emit_isingbond("Ising sampler", nb, &edges, &r, &states);
+                }
+            }
+        } else {
+            // tempering bond helper; slot i has |J| scaled by (4 + i)/4 (same signs)
+            let nrep = g.range(2, 3) as usize;
+            let mut tc: DefaultTemperingContainer<SplitMix64, SplitMix64> = TemperingContainer::new(SplitMix64::new(g.next()));
+            for i in 0..nrep {
+                let e: Vec<((usize, usize), f64)> = edges.iter().map(|(ab, j)| (*ab, j * (4 + i) as f64 / 4.0)).collect();
+                let q = IsingQ::new_with_rng(e, tr, 0.0, 4, SplitMix64::new(g.next()), None);
+                tc.add_qmc_stepper(q, [0.25, 0.5, 1.0][i % 3]).unwrap();
+            }
+            tc.timesteps(5);
+            let mut tc2 = tc.clone();
+            let s = g.range(1, 5) as usize;
+            let nbs: Vec<usize> = tc.graph_ref().iter().map(|(q, _)| q.n_bonds()).collect();
+            match catch(|| tc.calculate_bond_autocorrelation(t, Some(s), Some(f))) {
+                Err(p) => emit(false, &format!("isingbond {} 1 - -", l), "panic", Some(Err(format!("tempering bond helper panicked: {}", p)))),
+                Ok(r) => {
+                    let ref_run = tc2.parallel_timesteps_sample(t, s, f);
+                    for i in 0..nrep {
+                        emit_isingbond("Ising replicas", nbs[i], &edges, &r[i], &ref_run[i].0);
+                    }
+                }
+            }
+        }
+    }
+    stat("isingbond_graphs_with_edge_off_vars01", off01);
+}
+
 fn mode_edge(_a: &Args) {
     // no sample at all (f > T): fft_autocorrelation indexes samples[0]
     run_custom(3, Some(5), &[vec![1.0], vec![2.0], vec![0.5]]);
@@ -928,6 +1063,9 @@ fn main() {
     }
     if all || a.mode == "genbond" {
         mode_genbond(&a);
+    }
+    if all || a.mode == "isingbond" {
+        mode_isingbond(&a);
     }
     if all || a.mode == "edge" {
         mode_edge(&a);
